@@ -3,6 +3,8 @@ use mc_core::Ctx;
 
 mod c11;
 mod c49;
+mod sgen;
+mod world;
 
 fn main() {
     let ctx = Ctx::from_args();
